@@ -102,11 +102,15 @@ func verifCheckEncode(dst, x []byte) (msg string) {
 		}
 	}()
 	keep := bytes.Clone(x)
+	keepArr := bytes.Clone(x[:cap(x)])
 	keepDst := bytes.Clone(dst)
 	n := len(x)
 	res := AppendEncode(dst, x)
 	if !bytes.Equal(x, keep) {
 		return fmt.Sprintf("AppendEncode modified its source (len %d, src %x)", n, keep)
+	}
+	if !bytes.Equal(x[:cap(x)], keepArr) {
+		return fmt.Sprintf("AppendEncode wrote into the caller's memory beyond len(src) (len %d cap %d, src %x)", n, cap(x), keep)
 	}
 	if len(res) < len(keepDst) || !bytes.Equal(res[:len(keepDst)], keepDst) {
 		return fmt.Sprintf("AppendEncode modified the existing contents of dst (len %d)", n)
@@ -135,9 +139,13 @@ func verifCheckDecode(dst, src []byte) (msg string) {
 		}
 	}()
 	keepDst := bytes.Clone(dst)
+	keepArr := bytes.Clone(src[:cap(src)])
 	res, err := AppendDecode(dst, src)
 	if !bytes.Equal(src, keep) {
 		return fmt.Sprintf("AppendDecode modified its source %q -> %q", keep, src)
+	}
+	if !bytes.Equal(src[:cap(src)], keepArr) {
+		return fmt.Sprintf("AppendDecode wrote into the caller's memory beyond len(src) for %q", keep)
 	}
 	if nil != err {
 		var de DecodeError
@@ -244,6 +252,8 @@ func TestVerifReplayUUContract(t *testing.T) {
 	for n := 0; n <= maxLen; n++ {
 		for _, x := range verifFills(n, rnd) {
 			cases++
+			x = append(make([]byte, 0, len(x)+9), x...) /* source with spare capacity of its own */
+			copy(x[len(x):cap(x)], "SPARESPAR")
 			keep := bytes.Clone(x)
 			/* Encoder with a destination that has contents and spare capacity. */
 			dst := make([]byte, 5, 5+verifSpecEncLen(n)+7)
